@@ -77,9 +77,10 @@ def plan(tier):
     pl.units.append(U("X.complete_cb.string", "contracts.gating", "h_complete_cb_string", (), native_ok=True, sample_models=True))
 
     pl.units.append(U("F.parse_file", "contracts.pushdown", "h_parse_file", (), setup=("contracts.pushdown", "setup_parse_file")))
+    pl.units += common.driver_units()
 
     def lf(u, label):
-        return label.startswith(("X.", "F.")) or label in ("funnel", "G3.cb.monotone")
+        return label.startswith(("X.", "F.", "P8.")) or label in ("funnel", "G3.cb.monotone")
 
     pl.label_filter = lf
     pl.static = [static_funnel, lambda: lexfacts.obligations_L1(PID), lambda: lexfacts.obligations_ascii(PID),
@@ -102,5 +103,5 @@ def plan(tier):
         "sequences, generated scripts, single-token edits and byte-level mutations (invalid UTF-8, NUL, truncation). (F) "
         "parse_file opens the file once, hands its BYTES to parse() unchanged (so decoding happens inside parse()'s funnel), "
         "returns parse()'s verdict and closes the file (open() cut by a contract: binary mode gives the bytes, text mode "
-        "would decode -- and may raise -- outside the funnel); the byte-mutation inputs are also fed through parse_file.")
+        "would decode -- and may raise -- outside the funnel); the byte-mutation inputs are also fed through parse_file." + common.DRIVER_TEXT)
     return pl
